@@ -18,7 +18,16 @@ let cmd_c02_check (x : sx) : sx =
       sx_of_bool (c02_check (table_of_sx t) (list_of_sx (pair_of_sx z_of_sx z_of_sx) e) (table_of_sx fe) (list_of_sx z_of_sx npf))
   | _ -> failwith "c02_check"
 
+(* source-supplied edge table: (m table supplied) -> (kept edges face_edge) *)
+let cmd_c02_sup (x : sx) : sx =
+  match x with
+  | L [m; t; s] ->
+      let r = sup_face_edges (table_of_sx t) (nat_of_int (int_of_sx m)) (list_of_sx (pair_of_sx z_of_sx z_of_sx) s) in
+      L [ sx_of_bool r.sr_kept; sx_of_list (sx_of_pair sx_of_z sx_of_z) r.sr_edges; sx_of_table r.sr_face_edges ]
+  | _ -> failwith "c02_sup"
+
 let commands : (string * (sx -> sx)) list = [
+  "c02_sup", cmd_c02_sup;
   "c02", cmd_c02;
   "c02_check", cmd_c02_check;
 ]
